@@ -20,6 +20,10 @@ type Plan struct {
 	Sched sched.Config  `json:"sched"`
 }
 
+// LastRunDigest fingerprints the last executed run (decision trace, outcome, history with results):
+// the determinism self-test compares it across processes.
+var LastRunDigest string
+
 type RunOut struct {
 	Results  []*OpResult
 	Sched    *sched.Result
@@ -81,6 +85,7 @@ func RunPlan(e *Entry, p *Plan) *RunOut {
 		sort.SliceStable(out.Results, func(i, j int) bool { return out.Results[i].Invoke < out.Results[j].Invoke })
 		sess.Close()
 	}
+	LastRunDigest = shortHash(fmt.Sprintf("%v|%s|%d|%d|%s", out.Sched.Trace, out.Sched.Outcome, out.Sched.Steps, out.Sched.Blocks, historyDigestString(out.Results)))
 	if racePath != "" {
 		if _, after := raceLogSize(); after > before {
 			if b, err := os.ReadFile(racePath); err == nil && int64(len(b)) >= after {
